@@ -20,8 +20,9 @@ KWARGS = [{}, {'deformation_axis': 'x'}, {'deformation_axis': 'q'}]   # ignored 
 
 
 def sizes_for(ctx, cls, salt):
-    """(size passed to the constructor) every supported size with L <= small_max + random larger
-    ones; Color666PlanarCode ignores L_y, so some rectangular calls are added for it"""
+    """(size passed to the constructor) every supported size with L <= small_max (rectangular ones
+    included for Color488Code) + random larger ones; Color666PlanarCode ignores L_y, so some
+    rectangular calls are added for it"""
     rng = ctx.np_rng(salt)
     small_max = 7 if ctx.thorough else 5
     sizes = K.all_sizes(cls, small_max)
@@ -33,6 +34,10 @@ def sizes_for(ctx, cls, salt):
         tries += 1
         L = int(rng.integers(small_max + 1, big_max + 1))
         s = (L, L)
+        if cls == 'Color488Code' and tries % 2 == 0:
+            # rectangular sizes are supported: one side beyond small_max, the other anywhere
+            M = int(rng.integers(1, big_max + 1))
+            s = (L, M) if tries % 4 == 0 else (M, L)
         if s in seen or not K.supported(cls, s):
             continue
         seen.add(s)
@@ -85,7 +90,7 @@ def malformed_locations(ss, extra):
 def unsupported_sizes(cls):
     """documented (L_x x L_y) but outside the supported family (known finding D14): the model
     transcribes the code there too"""
-    if cls in ('Color488Code', 'Color666ToricCode'):
+    if cls == 'Color666ToricCode':
         return [(1, 2), (2, 1), (2, 3), (3, 2), (1, 3)]
     return []
 
